@@ -20,6 +20,7 @@ import (
 	"runtime"
 	"sort"
 	"strconv"
+	"strings"
 	"sync"
 	"testing"
 	"time"
@@ -60,8 +61,9 @@ type Step struct {
 	Size int    `json:"size,omitempty"`
 	Val  int    `json:"val,omitempty"`
 	W    int    `json:"w,omitempty"` // flush: which of the two flush goroutines moves
-	// setmd / delmd: the client operation is parked between its update in memory and the
-	// flusher being told about it while flush goroutine W moves During steps.
+	// setmd / delmd / delete: the client operation is parked at its client-side scheduling point
+	// (between the update in memory and the flusher being told; inside Delete between the abort
+	// of the flush and the removal of the disk entry) while flush goroutine W moves During steps.
 	During int `json:"during,omitempty"`
 }
 
@@ -83,6 +85,13 @@ func gen(t *rapid.T) Case {
 		case "create":
 			s.Size = rapid.IntRange(0, 16).Draw(t, "size")
 			s.Val = rapid.IntRange(1, 250).Draw(t, "val")
+		case "delete":
+			if rapid.IntRange(0, 2).Draw(t, "split") == 0 {
+				s.During = rapid.IntRange(1, 4).Draw(t, "during")
+				if rapid.IntRange(0, 3).Draw(t, "w") == 0 {
+					s.W = 1
+				}
+			}
 		case "setmd", "delmd":
 			if s.Kind == "setmd" {
 				s.Val = rapid.IntRange(1, 250).Draw(t, "val")
@@ -207,7 +216,7 @@ func (f *flusherCtl) yield(point, key string) {
 	client := f.clientG != 0 && f.clientG == g
 	arr, rel := f.clientArr, f.clientRel
 	f.mu.Unlock()
-	if client && point == "store.beforeMarkMetadataDirty" {
+	if client && strings.HasPrefix(point, "store.") {
 		arr <- struct{}{}
 		<-rel
 		return
@@ -476,7 +485,9 @@ func run(c Case) pbt.Verdict {
 			if s.During > 0 {
 				var parked, stuck bool
 				err, parked, stuck = fc.splitClientOp(func() error { return st.SetMetadata(name, &md{V: []byte{byte(s.Val)}}) }, s.W, s.During,
-					func(r string) { note("%d:   (setmd %s parked before telling the flusher) flusher %d -> %s", si, name, s.W%2, r) })
+					func(r string) {
+						note("%d:   (setmd %s parked before telling the flusher) flusher %d -> %s", si, name, s.W%2, r)
+					})
 				if stuck {
 					return pbt.Verdict{Discard: true, Classes: []string{"flusher-stuck"}}
 				}
@@ -503,7 +514,9 @@ func run(c Case) pbt.Verdict {
 			if s.During > 0 {
 				var parked, stuck bool
 				err, parked, stuck = fc.splitClientOp(func() error { return st.DeleteMetadata(name, "_vmv") }, s.W, s.During,
-					func(r string) { note("%d:   (delmd %s parked before telling the flusher) flusher %d -> %s", si, name, s.W%2, r) })
+					func(r string) {
+						note("%d:   (delmd %s parked before telling the flusher) flusher %d -> %s", si, name, s.W%2, r)
+					})
 				if stuck {
 					return pbt.Verdict{Discard: true, Classes: []string{"flusher-stuck"}}
 				}
@@ -522,7 +535,20 @@ func run(c Case) pbt.Verdict {
 			b.md = nil
 			note("%d: delmd %s", si, name)
 		case "delete":
-			err := st.Delete(name)
+			var err error
+			if s.During > 0 {
+				var parked, stuck bool
+				err, parked, stuck = fc.splitClientOp(func() error { return st.Delete(name) }, s.W, s.During,
+					func(r string) { note("%d:   (delete %s parked inside Delete) flusher %d -> %s", si, name, s.W%2, r) })
+				if stuck {
+					return pbt.Verdict{Discard: true, Classes: []string{"flusher-stuck"}}
+				}
+				if parked {
+					classes["delete-parked-between-abort-and-disk-removal"] = true
+				}
+			} else {
+				err = st.Delete(name)
+			}
 			if b == nil {
 				if err == nil {
 					return pbt.Fail("Delete of absent key %s succeeded at step %d\n  history:%s", name, si, history())
@@ -643,8 +669,8 @@ func run(c Case) pbt.Verdict {
 
 func TestProp(t *testing.T) {
 	pbt.Main(t, pbt.Spec{
-		ID: "C09",
-		Rule: "rapid generates histories over 3 keys on a tiered store (disk capacity 1 MiB so disk never evicts; memory capacity 2-3 blobs): client ops {create+write, complete, set/delete metadata, delete, read, hold (open a handle and read half) / resume (read the rest through the held handle, possibly after the blob left the memory tier), memory pressure (a filler as large as the memory tier is created and deleted)} interleaved with 'advance flush goroutine 0|1 to its next scheduling point' steps (and an occasional 'run the flusher to quiescence'); background workers are stopped and the harness runs up to two flushes at a time, each on a goroutine that parks at 13 lock-free scheduling points (verif hook), so a stale flush of a deleted key can overlap the flush of its re-creation; one metadata update in three is itself parked between its update in memory and the flusher being told about it while a flush goroutine moves 1-4 steps. Model: key -> absent | incomplete | complete{bytes, metadata}; after every client op and again after quiescence + memory flood: completed blobs are present, read back exactly, and metadata equals the last successful update; blobs created and not yet completed are present and not shown as completed; absent keys are invisible and can be created. non-trivial = a client op on key k executes while the flusher is parked inside a flush of k; distinct by case hash",
+		ID:   "C09",
+		Rule: "rapid generates histories over 3 keys on a tiered store (disk capacity 1 MiB so disk never evicts; memory capacity 2-3 blobs): client ops {create+write, complete, set/delete metadata, delete, read, hold (open a handle and read half) / resume (read the rest through the held handle, possibly after the blob left the memory tier), memory pressure (a filler as large as the memory tier is created and deleted)} interleaved with 'advance flush goroutine 0|1 to its next scheduling point' steps (and an occasional 'run the flusher to quiescence'); background workers are stopped and the harness runs up to two flushes at a time, each on a goroutine that parks at 13 lock-free scheduling points (verif hook), so a stale flush of a deleted key can overlap the flush of its re-creation; one metadata update or Delete in three is itself parked at a client-side scheduling point (between the update in memory and the flusher being told; inside Delete between aborting the flush and removing the disk entry) while a flush goroutine moves 1-4 steps. Model: key -> absent | incomplete | complete{bytes, metadata}; after every client op and again after quiescence + memory flood: completed blobs are present, read back exactly, and metadata equals the last successful update; blobs created and not yet completed are present and not shown as completed; absent keys are invisible and can be created. non-trivial = a client op on key k executes while the flusher is parked inside a flush of k; distinct by case hash",
 		Assumptions: []string{
 			"interleavings are owned at the granularity of the hook's scheduling points (all outside critical sections); at most two flushes in flight (kraken's default is 10 workers)",
 			"disk never evicts in this configuration, so any disappearance of a completed blob is a loss",
